@@ -1,6 +1,342 @@
+//! C20 — Rust side of the differential monitor for the Python binding: a deterministic case table
+//! (problems restricted to + - * / in a fixed association order, so that the Python twin computes
+//! bit-identical right-hand sides) together with the results of the Rust API, floats as bit patterns.
+//! The Python driver (/verif/py/c20_driver.py) runs the same cases through the extension module.
+
 use crate::ctx::{Ctx, Meta};
 use crate::report::Report;
-pub fn run(ctx: &Ctx) -> (Report, Meta) {
-    (Report::new(&ctx.prop), Meta::new("not built yet"))
+use crate::rng::Rng;
+use ivp::prelude::*;
+use serde_json::{json, Value};
+
+#[derive(Clone, Debug)]
+pub struct Ev {
+    pub kind: &'static str, // "comp" | "lin" | "time"
+    pub k: usize,
+    pub c: f64,
+    pub terminal: bool,
+    pub direction: i32,
 }
-pub fn emit_expected(_tier: &str, _seed: u64) {}
+
+#[derive(Clone, Debug)]
+pub struct Cat {
+    pub name: &'static str,
+    pub n: usize,
+    pub params: Vec<f64>,
+    pub events: Vec<Ev>,
+    pub jac_mode: &'static str, // "none" | "callable" | "constant"
+}
+
+impl IVP for Cat {
+    fn ode(&self, t: f64, y: &[f64], d: &mut [f64]) {
+        let p = &self.params;
+        match self.name {
+            "vdp" => {
+                d[0] = y[1];
+                d[1] = p[0] * ((1.0 - y[0] * y[0]) * y[1]) - y[0];
+            }
+            "lin" => {
+                // tridiagonal: d_i = a y_{i-1} + b y_i + c y_{i+1}
+                let n = self.n;
+                for i in 0..n {
+                    let mut s = p[1] * y[i];
+                    if i > 0 {
+                        s = s + p[0] * y[i - 1];
+                    }
+                    if i + 1 < n {
+                        s = s + p[2] * y[i + 1];
+                    }
+                    d[i] = s;
+                }
+            }
+            "lotka" => {
+                d[0] = p[0] * y[0] - p[1] * y[0] * y[1];
+                d[1] = -p[2] * y[1] + p[3] * y[0] * y[1];
+            }
+            "decay" => {
+                for i in 0..self.n {
+                    d[i] = -p[i] * y[i];
+                }
+            }
+            "robertson" => {
+                d[0] = -p[0] * y[0] + p[1] * y[1] * y[2];
+                d[1] = p[0] * y[0] - p[1] * y[1] * y[2] - p[2] * y[1] * y[1];
+                d[2] = p[2] * y[1] * y[1];
+            }
+            _ => {
+                // "forced": non-autonomous polynomial forcing
+                d[0] = -p[0] * y[0] + t * t * p[1];
+                d[1] = y[0] - y[1] * p[2] + t * p[1];
+            }
+        }
+    }
+    fn n_events(&self) -> usize {
+        self.events.len()
+    }
+    fn events(&self, t: f64, y: &[f64], out: &mut [f64]) {
+        for (i, e) in self.events.iter().enumerate() {
+            out[i] = match e.kind {
+                "comp" => y[e.k] - e.c,
+                "lin" => y[0] + y[self.n - 1] * 0.5 - e.c,
+                _ => t - e.c,
+            };
+        }
+    }
+    fn event_config(&self, i: usize) -> EventConfig {
+        let mut c = EventConfig::new();
+        if self.events[i].terminal {
+            c.terminal();
+        }
+        c.direction(Direction::from(self.events[i].direction));
+        c
+    }
+    fn jac(&self, t: f64, y: &[f64], j: &mut Matrix) {
+        if self.jac_mode == "none" {
+            // default finite differences of the trait
+            struct Inner<'a>(&'a Cat);
+            impl<'a> IVP for Inner<'a> {
+                fn ode(&self, t: f64, y: &[f64], d: &mut [f64]) {
+                    self.0.ode(t, y, d)
+                }
+            }
+            IVP::jac(&Inner(self), t, y, j);
+            return;
+        }
+        let p = &self.params;
+        let n = self.n;
+        for r in 0..n {
+            for c in 0..n {
+                j[(r, c)] = 0.0;
+            }
+        }
+        match self.name {
+            "vdp" => {
+                j[(0, 1)] = 1.0;
+                j[(1, 0)] = p[0] * (-2.0 * y[0] * y[1]) - 1.0;
+                j[(1, 1)] = p[0] * (1.0 - y[0] * y[0]);
+            }
+            "lin" => {
+                for i in 0..n {
+                    j[(i, i)] = p[1];
+                    if i > 0 {
+                        j[(i, i - 1)] = p[0];
+                    }
+                    if i + 1 < n {
+                        j[(i, i + 1)] = p[2];
+                    }
+                }
+            }
+            "lotka" => {
+                j[(0, 0)] = p[0] - p[1] * y[1];
+                j[(0, 1)] = -p[1] * y[0];
+                j[(1, 0)] = p[3] * y[1];
+                j[(1, 1)] = -p[2] + p[3] * y[0];
+            }
+            "decay" => {
+                for i in 0..n {
+                    j[(i, i)] = -p[i];
+                }
+            }
+            "robertson" => {
+                j[(0, 0)] = -p[0];
+                j[(0, 1)] = p[1] * y[2];
+                j[(0, 2)] = p[1] * y[1];
+                j[(1, 0)] = p[0];
+                j[(1, 1)] = -p[1] * y[2] - 2.0 * p[2] * y[1];
+                j[(1, 2)] = -p[1] * y[1];
+                j[(2, 1)] = 2.0 * p[2] * y[1];
+            }
+            _ => {
+                j[(0, 0)] = -p[0];
+                j[(1, 0)] = 1.0;
+                j[(1, 1)] = -p[2];
+            }
+        }
+        let _ = t;
+    }
+}
+
+fn hx(x: f64) -> Value {
+    json!(format!("{:016x}", x.to_bits()))
+}
+fn hxv(v: &[f64]) -> Value {
+    Value::Array(v.iter().map(|&x| hx(x)).collect())
+}
+
+pub struct Case {
+    pub spec: Value,
+    pub cat: Cat,
+    pub method: Method,
+    pub x0: f64,
+    pub xend: f64,
+    pub y0: Vec<f64>,
+    pub opts: Box<dyn Fn() -> Options>,
+    pub probes: Vec<f64>,
+}
+
+pub fn gen_case(seed: u64, idx: usize) -> Case {
+    let mut rng = Rng::derive(seed, 20, idx as u64);
+    let methods: [(&str, Method); 6] = [("RK45", Method::DOPRI5), ("RK23", Method::RK23), ("DOP853", Method::DOP853), ("Radau", Method::RADAU), ("BDF", Method::BDF), ("RK4", Method::RK4)];
+    let (mstr, method) = methods[idx % 6];
+    let pk = (idx / 6) % 6;
+    let (name, n, params, y0, span): (&'static str, usize, Vec<f64>, Vec<f64>, f64) = match pk {
+        0 => ("vdp", 2, vec![rng.range(0.5, 3.0)], vec![rng.range(-2.0, 2.0), rng.range(-1.0, 1.0)], rng.range(1.0, 6.0)),
+        1 => {
+            let n = 3 + rng.below(4);
+            ("lin", n, vec![rng.range(0.1, 1.0), -rng.range(1.5, 3.0), rng.range(0.1, 1.0)], (0..n).map(|_| rng.range(-1.0, 1.0)).collect(), rng.range(1.0, 5.0))
+        }
+        2 => ("lotka", 2, vec![rng.range(0.5, 1.5), rng.range(0.5, 1.5), rng.range(0.5, 1.5), rng.range(0.5, 1.5)], vec![rng.range(0.5, 2.0), rng.range(0.5, 2.0)], rng.range(1.0, 6.0)),
+        3 => {
+            let n = 1 + rng.below(4);
+            ("decay", n, (0..n).map(|_| rng.range(0.2, 3.0)).collect(), (0..n).map(|_| rng.range(0.5, 2.0)).collect(), rng.range(0.5, 4.0))
+        }
+        4 => ("robertson", 3, vec![0.04, 1.0e4, 3.0e7], vec![1.0, 0.0, 0.0], if matches!(method, Method::RADAU | Method::BDF) { rng.logu(1.0, 400.0) } else { rng.range(0.001, 0.01) }),
+        _ => ("forced", 2, vec![rng.range(0.3, 2.0), rng.range(0.05, 0.3), rng.range(0.3, 2.0)], vec![rng.range(-1.0, 1.0), rng.range(-1.0, 1.0)], rng.range(1.0, 5.0)),
+    };
+    let backward = rng.chance(0.25) && name != "robertson";
+    let x0 = if rng.bool() { 0.0 } else { rng.range(-2.0, 2.0) };
+    let xend = if backward { x0 - span } else { x0 + span };
+    let dirn = if backward { -1.0 } else { 1.0 };
+    let rt = rng.logu(1e-8, 1e-3);
+    let at = rt * rng.logu(1e-3, 1.0);
+    let rtol_vec = rng.chance(0.2);
+    let atol_vec = rng.chance(0.25);
+    let rtol_list: Vec<f64> = (0..n).map(|_| rt * rng.range(0.5, 2.0)).collect();
+    let atol_list: Vec<f64> = (0..n).map(|_| at * rng.range(0.5, 2.0)).collect();
+    let dense = rng.bool();
+    let t_eval: Option<Vec<f64>> = if rng.chance(0.4) {
+        let m = 2 + rng.below(9);
+        let mut v: Vec<f64> = (0..=m).map(|i| x0 + (xend - x0) * i as f64 / m as f64).collect();
+        *v.last_mut().unwrap() = xend;
+        Some(v)
+    } else {
+        None
+    };
+    let mut events: Vec<Ev> = Vec::new();
+    if rng.chance(0.5) {
+        let ne = 1 + rng.below(3);
+        for _ in 0..ne {
+            let kind = *rng.pick(&["comp", "lin", "time"]);
+            let c = match kind {
+                "time" => x0 + (xend - x0) * rng.range(0.1, 0.9),
+                _ => rng.range(-0.5, 1.0),
+            };
+            events.push(Ev { kind, k: rng.below(n), c, terminal: false, direction: rng.int(-1, 1) as i32 });
+        }
+        if rng.chance(0.4) {
+            let k = rng.below(events.len());
+            events[k].terminal = true;
+        }
+    }
+    let implicit = matches!(method, Method::RADAU | Method::BDF);
+    let jac_mode: &'static str = if !implicit {
+        "none"
+    } else {
+        match rng.below(3) {
+            0 => "none",
+            1 => "callable",
+            _ => {
+                if name == "lin" || name == "decay" {
+                    "constant"
+                } else {
+                    "callable"
+                }
+            }
+        }
+    };
+    let first_step = if method == Method::RK4 { Some(dirn * span / rng.range(20.0, 200.0)) } else if rng.chance(0.2) { Some(span * rng.range(0.001, 0.05)) } else { None };
+    let max_step = if method != Method::RK4 && rng.chance(0.25) { Some(span * rng.range(0.05, 0.5)) } else { None };
+    let max_steps = if rng.chance(0.15) { Some(*rng.pick(&[3usize, 10, 40])) } else { None };
+    let probes: Vec<f64> = (0..5).map(|_| x0 + (xend - x0) * rng.f()).collect();
+    let cat = Cat { name, n, params: params.clone(), events: events.clone(), jac_mode };
+    let spec = json!({
+        "id": idx,
+        "problem": {"name": name, "n": n, "params": params},
+        "method": mstr,
+        "t_span": [hx(x0), hx(xend)],
+        "y0": hxv(&y0),
+        "rtol": if rtol_vec { hxv(&rtol_list) } else { hx(rt) },
+        "atol": if atol_vec { hxv(&atol_list) } else { hx(at) },
+        "t_eval": t_eval.as_ref().map(|v| hxv(v)),
+        "dense_output": dense,
+        "events": events.iter().map(|e| json!({"kind": e.kind, "k": e.k, "c": hx(e.c), "terminal": e.terminal, "direction": e.direction})).collect::<Vec<_>>(),
+        "jac": jac_mode,
+        "first_step": first_step.map(hx),
+        "max_step": max_step.map(hx),
+        "max_steps": max_steps,
+        "sol_probe_times": hxv(&probes),
+    });
+    let opts = {
+        let (rtl, atl, te) = (rtol_list.clone(), atol_list.clone(), t_eval.clone());
+        Box::new(move || {
+            let b = Options::builder()
+                .method(method)
+                .dense_output(dense)
+                .maybe_t_eval(te.clone())
+                .maybe_first_step(first_step)
+                .maybe_max_step(max_step)
+                .maybe_max_steps(max_steps);
+            match (rtol_vec, atol_vec) {
+                (true, true) => b.rtol(rtl.clone()).atol(atl.clone()).build(),
+                (true, false) => b.rtol(rtl.clone()).atol(at).build(),
+                (false, true) => b.rtol(rt).atol(atl.clone()).build(),
+                (false, false) => b.rtol(rt).atol(at).build(),
+            }
+        }) as Box<dyn Fn() -> Options>
+    };
+    Case { spec, cat, method, x0, xend, y0, opts, probes }
+}
+
+pub fn n_cases(tier: &str) -> usize {
+    if tier == "thorough" {
+        6_000
+    } else {
+        432
+    }
+}
+
+/// prints one JSON object per line: the case spec with an "expected" block from the Rust API
+pub fn emit_expected(tier: &str, seed: u64) {
+    for idx in 0..n_cases(tier) {
+        let c = gen_case(seed, idx);
+        let r = std::panic::catch_unwind(std::panic::AssertUnwindSafe(|| solve_ivp(&c.cat, c.x0, c.xend, &c.y0, (c.opts)())));
+        let mut spec = c.spec.clone();
+        spec["expected"] = match r {
+            Err(p) => json!({"outcome": "panic", "message": crate::probe::panic_message(&p)}),
+            Ok(Err(e)) => json!({"outcome": "err", "error": format!("{:?}", e)}),
+            Ok(Ok(sol)) => {
+                let probes: Vec<Value> = match &sol.continuous_sol {
+                    Some(cs) => c.probes.iter().map(|&t| cs.evaluate_extrapolate(t).map(|v| hxv(&v)).unwrap_or(Value::Null)).collect(),
+                    None => Vec::new(),
+                };
+                json!({
+                    "outcome": "ok",
+                    "status_name": format!("{:?}", sol.status),
+                    "t": hxv(&sol.t),
+                    "y": sol.y.iter().map(|v| hxv(v)).collect::<Vec<_>>(),
+                    "t_events": sol.t_events.iter().map(|v| hxv(v)).collect::<Vec<_>>(),
+                    "y_events": sol.y_events.iter().map(|ev| ev.iter().map(|v| hxv(v)).collect::<Vec<_>>()).collect::<Vec<_>>(),
+                    "nfev": sol.nfev, "njev": sol.njev, "nlu": sol.nlu,
+                    "sol_at_probes": probes,
+                })
+            }
+        };
+        println!("{}", spec);
+    }
+}
+
+/// `ivpmon run --property C20` is not the deciding command (the Python driver is); it only reports
+/// that the table can be generated.
+pub fn run(ctx: &Ctx) -> (Report, Meta) {
+    let mut rep = Report::new("C20");
+    for idx in 0..n_cases(&ctx.tier).min(50) {
+        let c = gen_case(ctx.seed, idx);
+        let r = std::panic::catch_unwind(std::panic::AssertUnwindSafe(|| solve_ivp(&c.cat, c.x0, c.xend, &c.y0, (c.opts)())));
+        rep.eval();
+        if r.is_ok() {
+            rep.nontrivial(idx as u64);
+        }
+    }
+    rep.notes.push("C20 is decided by /verif/py/c20_driver.py (./check C20 <tier>); this entry only exercises the Rust side of the table".into());
+    (rep, Meta::new("Rust side of the C20 case table only; use ./check C20"))
+}
